@@ -1,4 +1,5 @@
 """C01 - acceptance and language-preserving conversions (determinise / eps-removal / minimise / copy)."""
+from vf import values
 from vf import core, extract
 from vf.gen import fa as gfa
 from vf.ref import nfa as rn
@@ -78,7 +79,7 @@ def tags_of(ref):
 
 def post_accepts(ref, self, args, kwargs, result, exc):
     try:
-        word = list(args[0])
+        word = values.items_of(args[0])
     except TypeError:
         return
     w = word_values(word)
@@ -177,8 +178,8 @@ def run_case(c, stats):
         if str_collision(ref):
             stats.cls("state_str_collision")
     words = list(gfa.words_for(c, c.get("words", 3)))
-    for w in words:
-        call(fa.accepts, w)
+    for i, w in enumerate(words):
+        call(fa.accepts, values.word_form(w, i))
     ok, d = call(fa.to_deterministic)
     if ok:
         for w in words[:12]:
